@@ -14,6 +14,7 @@ import (
 	"bytes"
 	"encoding/base64"
 	"fmt"
+	"io"
 	"math/rand"
 	"strings"
 	"sync/atomic"
@@ -59,8 +60,9 @@ type dialogue struct {
 	// "pipelined" = the whole dialogue in a single write (only for dialogues
 	// without synchronising exchanges)
 	delivery string
-	maxRead  int  // if >0 the server's reads return at most this many bytes (segmentation)
-	stream   bool // the stub backend pushes updates from its Idle goroutine and returns literals from Fetch
+	maxRead  int   // if >0 the server's reads return at most this many bytes (segmentation)
+	panicAt  int64 // the stub backend panics inside Append after reading this many octets of the literal
+	stream   bool  // the stub backend pushes updates from its Idle goroutine and returns literals from Fetch
 }
 
 type gen struct {
@@ -345,6 +347,10 @@ type runner struct {
 	w      *hx.W
 	srv    map[string]*kit.Server
 	stream atomic.Bool
+	// panicAppend: the stub backend panics inside Session.Append after reading this many octets
+	// of the message literal (0 = off)
+	panicAppend atomic.Int64
+	panicsSeen  map[string]int
 }
 
 // handler is the stub backend's behaviour: the default one, except that while a
@@ -353,6 +359,28 @@ type runner struct {
 // next) and Fetch returns a body literal made of response-like text.
 func (r *runner) handler(s *kit.Sess, c *kit.Call, w *kit.Writers) kit.Result {
 	if !r.stream.Load() {
+		switch c.Method {
+		case "Append":
+			if n := r.panicAppend.Load(); n > 0 {
+				buf := make([]byte, n)
+				io.ReadFull(w.Literal, buf)
+				panic("stub backend: failure in the middle of the message literal")
+			}
+		case "Fetch":
+			// echo the requested sections (the section specification, including header field
+			// names that arrived as literals, is written back by the server)
+			if live := kit.LiveFetchOptions(c); live != nil && len(live.BodySection) > 0 {
+				m := w.Fetch.CreateMessage(1)
+				m.WriteUID(imap.UID(1))
+				for _, sec := range live.BodySection {
+					wc := m.WriteBodySection(sec, 4)
+					wc.Write([]byte("x\r\ny"))
+					wc.Close()
+				}
+				m.Close()
+				return kit.Result{}
+			}
+		}
 		return kit.DefaultHandler(s, c, w)
 	}
 	switch c.Method {
@@ -422,6 +450,8 @@ func (r *runner) run(d *dialogue) {
 	defer raw.Close()
 	r.stream.Store(d.stream)
 	defer r.stream.Store(false)
+	r.panicAppend.Store(d.panicAt)
+	defer r.panicAppend.Store(0)
 	res := result{Config: fmt.Sprintf("%s delivery=%s maxRead=%d", d.caps, d.delivery, d.maxRead)}
 	ev := func(f string, a ...interface{}) {
 		if len(res.Events) < 80 {
@@ -672,8 +702,11 @@ dialogue:
 			viol("argument-altered", c.desc, fmt.Sprintf("command answered OK but Session.%s never received the literal argument unchanged (%d bytes); received %s", c.wantMethod, len(c.wantArg), hx.Hex([]byte(strings.Join(seen, "|")), 200)))
 		}
 	}
-	if p := srv.Log.Panics(); len(p) > 0 {
-		viol("server-panic", "", p[0])
+	if p := srv.Log.Panics(); len(p) > r.panicsSeen[d.caps] {
+		if d.panicAt == 0 {
+			viol("server-panic", "", p[r.panicsSeen[d.caps]])
+		}
+		r.panicsSeen[d.caps] = len(p)
 	}
 	w.Metric("dialogues", 1)
 	w.Metric("commands", int64(len(d.cmds)))
@@ -691,7 +724,7 @@ func sizeClass(s string) string {
 }
 
 func body(w *hx.W) {
-	r := &runner{w: w, srv: map[string]*kit.Server{}}
+	r := &runner{w: w, srv: map[string]*kit.Server{}, panicsSeen: map[string]int{}}
 	capsNames := []string{"rev1", "rev1+literal+", "rev2"}
 	for _, cn := range capsNames {
 		s := kit.NewServer(kit.ServerCfg{Caps: capsFor(cn), InsecureAuth: true, Kind: kit.SessFull})
@@ -771,6 +804,13 @@ func body(w *hx.W) {
 			p = append(p, plain(g.tag(), "LOGIN user pass"))
 		}
 		if state == "selected" {
+			// (with UTF8=ACCEPT / IMAP4rev2 enabled the server may quote 8-bit strings it echoes)
+			switch g.rng.Intn(3) {
+			case 0:
+				p = append(p, plain(g.tag(), "ENABLE UTF8=ACCEPT"))
+			case 1:
+				p = append(p, plain(g.tag(), "ENABLE IMAP4rev2"))
+			}
 			p = append(p, plain(g.tag(), "SELECT box"))
 		}
 		return p
@@ -817,6 +857,18 @@ func body(w *hx.W) {
 					d.cmds = append(prefix(state), g.special(k))
 					d.cmds = append(d.cmds, plain(g.tag(), "NOOP"))
 					emit(d)
+				}
+			}
+			// the backend fails (panics) in the middle of an accepted APPEND literal: the rest of the
+			// literal is still literal payload
+			for _, sizeSel := range []int{2, 3, 5} {
+				for _, form := range []strForm{fSync, fNonSync} {
+					for _, at := range []int64{1, 40} {
+						d := &dialogue{caps: cn, class: fmt.Sprintf("auth/append-backend-panic/form%d/sizesel%d", form, sizeSel), panicAt: at}
+						d.cmds = append(prefix("auth"), g.appendCommand(sizeSel, form, false))
+						d.cmds = append(d.cmds, plain(g.tag(), "NOOP"))
+						emit(d)
+					}
 				}
 			}
 			// over-long lines of rejected commands
